@@ -70,7 +70,15 @@ def x_expr(ctx, case):
     snap_m = G.snapshot(m1)
     v1 = G.mkvalue(raw, E)
     snap_v = G.snapshot(v1) if raw[0] not in ("call", "exc") else None
+    import warnings as _w
+    w_before = (list(_w.filters), _w.showwarning, getattr(_w, "_showwarnmsg_impl", None))
     r1, mm = verdict(m1, v1)
+    w_after = (list(_w.filters), _w.showwarning, getattr(_w, "_showwarnmsg_impl", None))
+    if raw[0] == "call":
+        # a matcher that records warnings puts the process's warning machinery back, also when the callable raised
+        ctx.check(w_after == w_before, "deterministic",
+                  lambda: {"expr": expr, "value": raw, "the warnings filters / hooks after match() differ from before": True,
+                           "filters before": len(w_before[0]), "after": len(w_after[0])})
     r1b, _ = verdict(m1, v1)
     r2, _ = verdict(m2, G.mkvalue(raw, E))
     r3, _ = verdict(m3, G.mkvalue(raw, E))
@@ -212,7 +220,7 @@ def run(ctx):
     # every leaf x every pool value
     for dom in DOMS:
         for leaf in G.leaves(dom):
-            for raw in G.domain_values(dom, leaf) if dom != "warncall" else G.values_of("warncall"):
+            for raw in G.domain_values(dom, leaf):
                 if ctx.mine():
                     n += 1
                     ctx.execute("expr", {"expr": leaf, "value": raw}, sample=(n % 499 == 0))
@@ -358,7 +366,7 @@ def run(ctx):
             break
         dom = rng.choice(DOMS)
         e = G.random_expr(rng, dom, rng.randint(1, 4))
-        vals = G.domain_values(dom, e) if dom != "warncall" else G.values_of("warncall")
+        vals = G.domain_values(dom, e)
         if not vals:
             ctx.count("excluded:no-value-in-domain")
             continue
